@@ -42,7 +42,7 @@ func runC17Cmd(c c17Cmd) error {
 	}
 	out := filepath.Join(dir, "plot.html")
 	var rerr error
-	if perr := vh.Try(func() { rerr = plotRun(files, c.Case.Threshold, "c17", out) }); perr != nil {
+	if perr := vh.Try(func() { rerr = runPlot(files, c.Case.Threshold, "c17", out) }); perr != nil {
 		return fmt.Errorf("vegeta plot panics: %v", perr)
 	}
 	_, rejected, _ := c.Case.Classify()
